@@ -60,8 +60,30 @@ Definition observe_offramp (sup : N) (known : option (list N)) (curse : option c
        end.
 
 (* execute: getCommitReportsObservation; pending = getPendingExecutedReports (chain -> payload), None = error.
-   Ok None: the observation is returned without commit reports. *)
+   Ok None: the observation is returned without commit reports.
+   After the repair of F30 the observed map is built from the known sources: a chain is kept iff it is a known source
+   (the chains curse info was requested for), has reports, and is not reported cursed.  The Go loop runs over the known
+   sources and looks each one up in the pending map; as a map that is the filter below. *)
 Definition exec_observe {P} (sup : N) (known : option (list N)) (curse : option curse_info)
+           (pending : option (list (N * P))) : res (option (list (N * P))) :=
+  if N.eqb sup 2 then Err
+  else if N.eqb sup 0 then Ok None
+  else match known with
+       | None => Ok None
+       | Some all =>
+           match curse with
+           | None => Ok None
+           | Some ci =>
+               if ci_global ci || ci_dest ci then Ok None
+               else match pending with
+                    | None => Err
+                    | Some g => Ok (Some (filter (fun kv => memN (fst kv) all && negb (src_cursed ci (fst kv))) g))
+                    end
+           end
+       end.
+
+(* the function before the repair: only the chains the reader reported cursed were deleted *)
+Definition exec_observe_unfixed {P} (sup : N) (known : option (list N)) (curse : option curse_info)
            (pending : option (list (N * P))) : res (option (list (N * P))) :=
   if N.eqb sup 2 then Err
   else if N.eqb sup 0 then Ok None
